@@ -480,6 +480,19 @@ impl Stats {
                 if FEATURE_I {
                     req.push("exit_path.interrupted".into());
                 }
+                // every feasible cell of the API x exit-path matrix
+                if self.evaluations >= 100_000 {
+                    for a in crate::spec::ALL_APIS.iter().filter(|a| !a.is_stream()) {
+                        req.push(format!("exit.{}|finished", a.name()));
+                        req.push(format!("exit.{}|empty", a.name()));
+                        if a.can_fail() {
+                            req.push(format!("exit.{}|failed", a.name()));
+                        }
+                        if FEATURE_I && a.interruptible() {
+                            req.push(format!("exit.{}|interrupted", a.name()));
+                        }
+                    }
+                }
             }
             Prop::C05 => req.push("probe.pending_poll_with_refs_outstanding".into()),
             Prop::C06 => req.push("probe.idle_points_evaluated".into()),
